@@ -337,6 +337,12 @@ void tickit_term_teardown(TickitTerm *tt)
 
 void tickit_term_destroy(TickitTerm *tt)
 {
+  /* Destruction is not re-entrant.  The handlers that are notified below may
+   * still emit events on this terminal, and event dispatch takes and drops a
+   * reference: pinned above zero, that drop cannot start a second destruction
+   */
+  tt->refcount = 1;
+
   if(tt->observe_winch)
     tickit_term_observe_sigwinch(tt, false);
 
